@@ -38,7 +38,8 @@ type outCell struct {
 	x, y, w, h     float64 // border box
 	cw, ch         float64 // content box size
 	padBorderH     float64 // horizontal padding + border
-	gx, cs, rs, gy int
+	gx, cs, rs, gy int     // gy: row of the reference grid
+	py             int     // index of its row among the rows of this page
 }
 
 type outcome struct {
@@ -51,8 +52,31 @@ type reporter struct {
 	count func(name string, n int64)
 }
 
-// verify evaluates every clause of the property on one laid-out table.
-func verify(d *doc, g *refGrid, t *bo.TableBox, rp reporter) outcome {
+// rowID reads the source row index from the id attribute ("rN") of the <tr> a row box comes from.
+func rowID(b *bo.BoxFields) int {
+	if b.Element == nil {
+		return -1
+	}
+	for _, a := range b.Element.Attr {
+		if a.Key == "id" && len(a.Val) > 1 && a.Val[0] == 'r' {
+			n := 0
+			for _, ch := range a.Val[1:] {
+				if ch < '0' || ch > '9' {
+					return -1
+				}
+				n = n*10 + int(ch-'0')
+			}
+			return n
+		}
+	}
+	return -1
+}
+
+// verify evaluates every clause of the property on one laid-out table: the whole table, or the
+// fragment of it that page number `page` holds when the table is split over pages (the rows are
+// then identified by the <tr> they come from: a fragment starts anywhere, repeats the header and
+// footer groups, and its first and last row may be parts of a row split between two pages).
+func verify(d *doc, g *refGrid, t *bo.TableBox, page int, rp reporter) outcome {
 	hs, vs := d.spacing()
 	cw, cp := t.ColumnWidths, t.ColumnPositions
 	ncols := len(cw)
@@ -72,17 +96,37 @@ func verify(d *doc, g *refGrid, t *bo.TableBox, rp reporter) outcome {
 	}
 
 	// ---- rows and cells as laid out -------------------------------------------------------
-	type outRow struct{ top, h float64 }
+	type outRow struct {
+		top, h float64
+		ref    int // row of the reference grid (laid-out order)
+		grp    int // index of its row group among the groups of this page
+	}
 	var rows []outRow
 	var cells []outCell
-	for _, grp := range t.Children {
+	laidOf := map[int]int{} // source row -> row of the reference grid
+	for i, r := range g.rows {
+		laidOf[r.src] = i
+	}
+	pageRow := map[int]int{} // row of the reference grid -> index in rows
+	for gi, grp := range t.Children {
 		for _, r := range grp.Box().Children {
 			rb := r.Box()
-			y := len(rows)
-			rows = append(rows, outRow{float64(rb.PositionY), mf(rb.Height)})
-			if y >= len(g.rows) {
-				continue
+			py := len(rows)
+			y, ok := laidOf[rowID(rb)]
+			if !ok {
+				rp.fail("structure", fmt.Sprintf("page %d: row box %d does not come from a <tr> of the source", page, py))
+				return outcome{key.String(), false}
 			}
+			if !d.paginated() && y != py {
+				rp.fail("structure", fmt.Sprintf("row box %d comes from row %d of the source (laid-out order)", py, y))
+				return outcome{key.String(), false}
+			}
+			if _, dup := pageRow[y]; dup {
+				rp.fail("structure", fmt.Sprintf("page %d: row %d is laid out twice", page, y))
+				return outcome{key.String(), false}
+			}
+			pageRow[y] = py
+			rows = append(rows, outRow{float64(rb.PositionY), mf(rb.Height), y, gi})
 			ref := g.rows[y].cells
 			if len(rb.Children) > len(ref) {
 				rp.fail("structure", fmt.Sprintf("row %d has %d cells, the source has %d", y, len(rb.Children), len(ref)))
@@ -95,7 +139,7 @@ func verify(d *doc, g *refGrid, t *bo.TableBox, rp reporter) outcome {
 					x:   float64(f.BorderBoxX()), y: float64(f.BorderBoxY()), w: float64(f.BorderWidth()), h: float64(f.BorderHeight()),
 					cw: mf(f.Width), ch: mf(f.Height),
 					padBorderH: float64(f.PaddingLeft.V() + f.PaddingRight.V() + f.BorderLeftWidth + f.BorderRightWidth),
-					gx:         f.GridX, cs: f.Colspan, rs: f.Rowspan, gy: y,
+					gx:         f.GridX, cs: f.Colspan, rs: f.Rowspan, gy: y, py: py,
 				})
 			}
 			// cells of the source that were not laid out: only legitimate beyond the columns of
@@ -113,9 +157,12 @@ func verify(d *doc, g *refGrid, t *bo.TableBox, rp reporter) outcome {
 		rp.count("tables-without-cells", 1)
 		return outcome{key.String(), false}
 	}
-	if len(rows) != len(g.rows) {
+	if !d.paginated() && len(rows) != len(g.rows) {
 		rp.fail("structure", fmt.Sprintf("%d rows laid out, %d in the source", len(rows), len(g.rows)))
 		return outcome{key.String(), false}
+	}
+	if page > 0 {
+		rp.count("table-fragments-on-later-pages", 1)
 	}
 	for _, r := range rows {
 		fmt.Fprintf(&key, " R%.2f", r.h)
@@ -177,7 +224,7 @@ func verify(d *doc, g *refGrid, t *bo.TableBox, rp reporter) outcome {
 			continue
 		}
 		last := c.gx + c.cs - 1
-		if c.gx < 0 || last >= ncols || c.cs < 1 || c.gy+c.rs > len(rows) || c.rs < 1 {
+		if c.gx < 0 || last >= ncols || c.cs < 1 || c.gy+c.rs > len(g.rows) || c.rs < 1 {
 			continue // reported above
 		}
 		if c.cs > 1 {
@@ -196,12 +243,29 @@ func verify(d *doc, g *refGrid, t *bo.TableBox, rp reporter) outcome {
 			rp.fail("column-edges", fmt.Sprintf("cell %d ends in column %d: right edge %g, column ends at %g", rc.k, last, c.x+c.w, r))
 		}
 		// top edge = top of its row; bottom edge = bottom of the last row it spans
-		if !near(c.y, rows[c.gy].top) {
-			rp.fail("row-edges", fmt.Sprintf("cell %d: top edge %g, row %d starts at %g", rc.k, c.y, c.gy, rows[c.gy].top))
+		if !near(c.y, rows[c.py].top) {
+			rp.fail("row-edges", fmt.Sprintf("cell %d: top edge %g, row %d starts at %g", rc.k, c.y, c.gy, rows[c.py].top))
 		}
-		lr := c.gy + c.rs - 1
-		if b := rows[lr].top + rows[lr].h; !near(c.y+c.h, b) {
-			rp.fail("row-edges", fmt.Sprintf("cell %d (rowspan %d): bottom edge %g, row %d ends at %g (cell height %g)", rc.k, c.rs, c.y+c.h, lr, b, c.h))
+		// the last row it spans; when the table is split, the last one of them on this page
+		lp, cut := c.py, false
+		for y := c.gy + 1; y < c.gy+c.rs; y++ {
+			if p, ok := pageRow[y]; ok && p == lp+1 && rows[p].grp == rows[c.py].grp {
+				lp = p
+			} else {
+				cut = true
+				break
+			}
+		}
+		b := rows[lp].top + rows[lp].h
+		switch {
+		case cut:
+			// a page break between the rows a cell spans. How such a cell is fragmented is not
+			// settled by the statement (the implementation leaves it at its own height, neither
+			// stretched to the row nor continued on the next page): its bottom edge is not
+			// checked; it still takes part in the overlap clause
+			rp.count("spans-cut-by-a-page-break", 1)
+		case !near(c.y+c.h, b):
+			rp.fail("row-edges", fmt.Sprintf("cell %d (rowspan %d): bottom edge %g, row %d ends at %g (cell height %g)", rc.k, c.rs, c.y+c.h, rows[lp].ref, b, c.h))
 		}
 	}
 
@@ -228,9 +292,13 @@ func verify(d *doc, g *refGrid, t *bo.TableBox, rp reporter) outcome {
 			}
 		}
 	}
-	rowOrigin := make([]bool, len(rows))
+	rowOriginRef := make([]bool, len(g.rows))
 	for _, c := range g.cells {
-		rowOrigin[c.gy] = true
+		rowOriginRef[c.gy] = true
+	}
+	rowOrigin := make([]bool, len(rows))
+	for i, r := range rows {
+		rowOrigin[i] = rowOriginRef[r.ref]
 	}
 	for i := 1; i < len(rows); i++ {
 		gap := rows[i].top - (rows[i-1].top + rows[i-1].h)
@@ -263,7 +331,7 @@ func verify(d *doc, g *refGrid, t *bo.TableBox, rp reporter) outcome {
 	}
 
 	// ---- used width >= specified width -------------------------------------------------------
-	if sw := d.specifiedWidth(); sw > 0 {
+	if sw := d.specifiedWidth(page); sw > 0 {
 		rp.count("tables-with-specified-width", 1)
 		// the UA sheet makes tables box-sizing:border-box; comparing the border box is correct
 		// for that and implied by the content-box reading
@@ -274,7 +342,8 @@ func verify(d *doc, g *refGrid, t *bo.TableBox, rp reporter) outcome {
 
 	// ---- used width >= minimum of the content (automatic layout only) ---------------------------
 	if !d.fixedEffective() && !g.collision {
-		for y := range rows {
+		for _, r := range rows {
+			y := r.ref
 			need, n := 0.0, 0
 			for i := range cells {
 				c := &cells[i]
